@@ -100,7 +100,8 @@ CHECKS["C05"] = (
 CHECKS["C06"] = (
     ENUM + " (reference mirror image + brute-force search for an isomorphism onto it)",
     "Every stereo spec of the universes (all descriptor classes, all stereoisomers, placeholders in atom, axis and planar-bond "
-    "descriptors, unspecified parity, axis chirality, numpy-typed descriptor values, stereo changes on atoms and bonds, with attributes): enantiomer() must equal the reference mirror image, leave "
+    "descriptors, unspecified parity, axis chirality (also two axes in one molecule), cages whose centres have ring neighbours only, "
+    "numpy-typed descriptor values, stereo changes on atoms and bonds, with attributes): enantiomer() must equal the reference mirror image, leave "
     "the original untouched, be an involution, and g == g.enantiomer() iff the oracle finds an isomorphism onto the mirror.",
     "Trusted: refgraph.mirror / refstereo / refiso.", "DESIGN.md 5/C06")
 CHECKS["C08"] = (
@@ -129,7 +130,7 @@ CHECKS["C15"] = (
     "Every spec of all four universes (every descriptor class, parity incl. None, placeholders, formed/broken/fleeting bonds, all 7 "
     "kind combinations of atom and bond stereo changes, empty graph) in three identifier pools (0..n-1, negative, >=2^31), once "
     "more with attributes outside the format on every atom and bond, with hash-colliding identifiers, with static bond descriptors "
-    "on bonds that carry a role: "
+    "on bonds that carry a role, with centres that carry a static descriptor and stereo changes: "
     "deserialize(serialize(g)) has the same class, an identical snapshot, compares equal and hashes equal.",
     "Trusted: snapshot; attributes other than element/role are not part of the format.", "DESIGN.md 5/C15")
 CHECKS["C17"] = (
@@ -150,7 +151,7 @@ CHECKS["C07"] = (
     "reflections and three noise levels; the perceived graph renamed back must have the same bonds and spatially identical "
     "descriptors (mirror images under reflection) and every descriptor must name the centre and exactly its bonded neighbours; "
     "reaction triples with independently moved geometries; 288 atoms under six reorderings; a caller-supplied switching function on a "
-    "five-coordinate carbon under all 720 orders (cut-off raised or set to 0.0, either key orientation); see-saw centres; the caller's coordinate array overwritten after the Geometry was built.",
+    "five-coordinate carbon under all 720 orders (cut-off raised or set to 0.0, either key orientation); see-saw centres; alkenes twisted by 15 / 18 degrees; translations by 1e8 A; the caller's coordinate array overwritten after the Geometry was built.",
     "Trusted: harness-side general-position guard and refstereo; a finite grid of a continuum (VERIF_SEED picks the generic "
     "motions and noise vectors).", "DESIGN.md 5/C07")
 CHECKS["C18"] = (
@@ -183,7 +184,7 @@ CHECKS["C13"] = (
     "All 48/48/24/240/1440 orderings-and-parities of tetrahedral (with and without lone pair), square planar, trigonal "
     "bipyramidal and octahedral stars in two identifier pools with permuted insertion order, two-unit graphs, chains of two / "
     "three directly bonded coordination centres of every class pair, centres with a stereogenic ligand atom, E/Z chains of 130 / "
-    "262 atoms, an E/Z alkene with a remote radical centre, bond-order flag also as numpy.bool_, all E/Z double "
+    "262 atoms, double bonds in three-membered rings, dihydrogen, an E/Z alkene with a remote radical centre, bond-order flag also as numpy.bool_, all E/Z double "
     "bonds over 5 substituent elements with regenerated bond orders, and imported organics: export then import by atom-map "
     "number reproduces atoms, elements, bonds and spatially identical descriptors; export leaves the graph unchanged.",
     "Trusted: RDKit as the carrier; identifiers must be positive (atom-map numbers).", "DESIGN.md 5/C13")
